@@ -190,6 +190,20 @@ func Run(cfg Config) *hx.Result {
 	return r
 }
 
+// failingEncode performs an encode that fails part-way through an object (a record holding a
+// union with no member set), the way a caller's invalid value would; what it leaves behind in the
+// library must not leak into later encodes.
+func (x *runner) failingEncode(f Fmt) {
+	v := x.env.GenValue(x.rng, R("WithUnion"), 2, GenOpts{OptPct: 80})
+	for i := range v.KVs {
+		if v.KVs[i].K == "us" {
+			v.KVs[i].V = VArr(VUnion(KV{"int", VI32(7)}), VUnion())
+		}
+	}
+	out, _ := x.b.Encode(f, R("WithUnion"), v, nil)
+	x.r.Count("interleaved-failing-encode:" + strings.SplitN(out, " ", 2)[0])
+}
+
 func (x *runner) runC01() {
 	x.r.Rule = "corpus schemas (every type constructor × required/optional/defaulted × includes × unions × recursion) × schema-directed values biased to metacharacters, extremes and float specials × 5 wire formats; each value is encoded and decoded by the bindings the real generator produced; non-trivial = encodes successfully; distinct by op line"
 	n := 6
@@ -198,8 +212,11 @@ func (x *runner) runC01() {
 	}
 	for _, t := range x.topTypes() {
 		for i := 0; i < n; i++ {
-			v := x.env.GenValue(x.rng, t, 3, GenOpts{OptPct: 60})
+			v := x.env.GenValue(x.rng, t, 3, GenOpts{OptPct: 60, LongArrays: true})
 			for _, f := range AllFmts {
+				if x.rng.Intn(4) == 0 {
+					x.failingEncode(f)
+				}
 				x.roundTrip(f, t, v)
 			}
 		}
